@@ -414,7 +414,9 @@ func (d *DirectoryOutputHandler) Load(
 
 	// WaitGroup to wait for all goroutines to finish
 	var waitGroup sync.WaitGroup
-	errChan := make(chan error, len(tree.Children))
+	// There is one download routine per file: the channel only needs to keep the first errors
+	// (see the non-blocking send below), it must never make a download routine block
+	errChan := make(chan error, len(tree.Children)+1)
 	// Recursively load the directory structure
 	if err := d.loadDirectoryRecursive(ctx, dirPath, tree.Root, childrenMap, progress, &waitGroup, errChan); err != nil {
 		return fmt.Errorf("failed to load directory structure: %w", err)
@@ -457,7 +459,12 @@ func (d *DirectoryOutputHandler) loadDirectoryRecursive(
 			console.GetLogger(ctx).Debugf("loading file for directory output %s from digest %s", filePath, digest)
 			err := d.downloadFile(ctx, digest, filePath, fileNode.IsExecutable, progress)
 			if err != nil {
-				errChan <- fmt.Errorf("failed to download file %s: %v", filePath, err)
+				// Never block: nobody receives from errChan before all downloads have finished,
+				// so a full channel would deadlock the restore (e.g. a flat directory with a missing blob)
+				select {
+				case errChan <- fmt.Errorf("failed to download file %s: %v", filePath, err):
+				default:
+				}
 			}
 		}(filePath, fileNode.Digest.Hash)
 	}
